@@ -4,7 +4,9 @@
 (* line_search (kind "ls") or one RegionConstructor.build() (kind "build": *)
 (* 2*D line searches from the same start along +-axis directions).         *)
 (*                                                                         *)
-(* Inputs: K, replim, ndir directions, and per direction the predicate the *)
+(* Inputs: K, replim, hf (which variant of the design module the code is   *)
+(* expected to follow, see LineSearchOps!For; only M: clauses use it),     *)
+(* ndir directions, and per direction the predicate the                    *)
 (* harness objective implements: below[dir][j] = 1 iff the objective is    *)
 (* below the threshold on the unit interval [lo+j-1, lo+j) of the line     *)
 (* (unit = eta/2^K; outside the table: not below).  Outputs: every call of *)
@@ -59,7 +61,7 @@ JudgeM(e) ==
   IF e.ev = "probe" \/ e.res # "val" THEN ""
   ELSE IF e.dir \notin 1..T.ndir THEN "M:ls-direction-along-an-axis"
   ELSE IF T.kind = "build" /\ ~StartBelow THEN ""
-  ELSE LET r == LSRun(BFun(e.dir), T.K, T.replim, TRUE)
+  ELSE LET r == LSRun(BFun(e.dir), T.K, T.replim, TRUE, T.hf)
            got == Positions(Mine(e.dir))
            mine == Mine(e.dir)
        IN IF \E k \in 1..Len(r.probes) : r.probes[k] \notin DOMAIN BFun(e.dir) THEN "X:table-too-short"
